@@ -364,7 +364,7 @@ class Node(object):
         if self.dynamic_classes is True:
             next_time = float('inf')
             next_class = next_individual.customer_class
-            for clss, dist in self.simulation.network.customer_classes[next_individual.customer_class].class_change_time_distributions.items():
+            for clss, dist in self.simulation.class_change_times[next_individual.customer_class].items():
                 if dist is not None:
                     t = dist._sample()
                     if t < next_time:
@@ -666,7 +666,7 @@ class Node(object):
         """
         Returns the reneging date for a given individual.
         """
-        dist = self.simulation.network.customer_classes[ind.customer_class].reneging_time_distributions[self.id_number - 1]
+        dist = self.simulation.reneging_times[self.id_number][ind.customer_class]
         if dist is None:
             return float("inf")
         return self.increment_time(self.now, dist._sample(t=self.now, ind=ind))
